@@ -1085,7 +1085,16 @@ func (e *SpecEnv) opaquePred(pd *PredDef, args []Expr) SV {
 		tys = append(tys, ty)
 		n.vars[p.Name] = SV{T: &Term{bn, srt}, Ty: ty}
 	}
+	savedLog := e.h.accessLog
+	e.h.accessLog = map[string]string{}
 	body := n.val(n.tr(pd.Body))
+	bodyArrays := e.h.accessLog
+	e.h.accessLog = savedLog
+	if savedLog != nil {
+		for k, v := range bodyArrays {
+			savedLog[k] = v
+		}
+	}
 	if body.Sort != SBool {
 		sfail("opaque pred %s: body is not boolean", pd.Name)
 	}
@@ -1112,6 +1121,7 @@ func (e *SpecEnv) opaquePred(pd *PredDef, args []Expr) SV {
 		} else if e.h.emit != nil {
 			e.h.emit(Forall(bs, mk(SBool, "=", app, body), []*Term{app}))
 		}
+		e.h.stableUnderFresh(pd, sym, sorts, bodyArrays)
 	}
 	// 3. application
 	var ats []*Term
@@ -1132,4 +1142,84 @@ func (e *SpecEnv) opaquePred(pd *PredDef, args []Expr) SV {
 		return SV{T: &Term{sym, SBool}, Ty: tBool}
 	}
 	return SV{T: mk(SBool, sym, ats...), Ty: tBool}
+}
+
+// stableUnderFresh: a new symbol of an opaque predicate whose body reads array versions that differ from
+// those of an earlier symbol only by fresh-only frames (havocs that keep every cell of objects allocated
+// before) takes the same value on arguments allocated before. Meta-lemma of the encoding (trusted): the
+// heap is closed under allocation, so everything reachable from old objects is unchanged.
+func (h *HeapCtx) stableUnderFresh(pd *PredDef, sym string, sorts []*Sort, arrays map[string]string) {
+	key := pd.Pkg + "." + pd.Name
+	if h.opaqueSyms == nil {
+		h.opaqueSyms = map[string][]*opaqueSym{}
+	}
+	defer func() {
+		h.opaqueSyms[key] = append(h.opaqueSyms[key], &opaqueSym{sym, arrays, sorts})
+	}()
+	if h.emit == nil || len(sorts) == 0 {
+		return
+	}
+	prev := h.opaqueSyms[key]
+	for pi := len(prev) - 1; pi >= 0; pi-- {
+		p := prev[pi]
+		if len(p.arrays) != len(arrays) {
+			continue
+		}
+		var bound *Term
+		ok := true
+		differs := false
+		for name, cur := range arrays {
+			old, has := p.arrays[name]
+			if !has {
+				ok = false
+				break
+			}
+			if old == cur {
+				continue
+			}
+			differs = true
+			// follow the fresh-frame chain from cur back to old
+			t := cur
+			found := false
+			for steps := 0; steps < 64; steps++ {
+				fp, isFresh := h.freshFrom[t]
+				if !isFresh {
+					break
+				}
+				bound = fp.next // the earliest hop is reached last: it has the smallest counter
+				t = fp.old.S
+				if t == old {
+					found = true
+					break
+				}
+			}
+			if !found {
+				ok = false
+				break
+			}
+		}
+		if !ok || !differs || bound == nil {
+			continue
+		}
+		var bs []Bound
+		var vs []*Term
+		var guards []*Term
+		for i, srt := range sorts {
+			bn := fmt.Sprintf("sf!%d", i)
+			bs = append(bs, Bound{bn, srt})
+			v := &Term{bn, srt}
+			vs = append(vs, v)
+			switch srt {
+			case SPtr:
+				guards = append(guards, Or(IsNil(v), Lt(PObjID(v), bound)))
+			case SSlc:
+				guards = append(guards, Or(IsNil(SlcArr(v)), Lt(PObjID(SlcArr(v)), bound)))
+			}
+		}
+		a2 := mk(SBool, sym, vs...)
+		a1 := mk(SBool, p.sym, vs...)
+		h.emit(Forall(bs, Implies(And(guards...), mk(SBool, "=", a2, a1)), []*Term{a2}))
+		h.w.assume("opaque predicates are stable under calls and loops that write only freshly allocated objects (meta-lemma of the heap encoding)")
+		return
+	}
 }
